@@ -292,6 +292,9 @@ class Prop:
     def extra_checks(self, ctx) -> None:
         pass
 
+    # trace modules for which the repository's own test suite is used as a third trace source
+    observed_from_suite: list[str] = []
+
 
 class Ctx:
     def __init__(self, prop: Prop, tier: str, seed: int):
@@ -360,6 +363,9 @@ def model_phase(ctx: Ctx) -> list:
             exported.extend(lines)
         if not run.get("simulate"):
             ctx.exhaustive = True
+    # 16 TLC workers append their export lines in a nondeterministic order: sort, so that the cases derived from
+    # them (seeds, rotations) depend on VERIF_SEED only
+    exported.sort(key=canon)
     return exported
 
 
@@ -454,6 +460,26 @@ def validate_records(ctx: Ctx, recs: list[dict], module: str | None = None, env:
                 ctx.known.append((f, c, rec))
             else:
                 ctx.violations.append((c, rec, v))
+
+
+def records_from_repo_tests(module: str) -> list[dict]:
+    """Third trace source: run the repository's own test suite with the recording plugin (harness/pytest_trace.py,
+    installed from outside, nothing in the repository changes) and return what it recorded for one trace module."""
+    import subprocess
+    tmp = tempfile.mkdtemp(prefix="verif-pytest-")
+    out = os.path.join(tmp, "suite.ndjson")
+    try:
+        env = dict(os.environ, PYTHONPATH=str(VERIF) + os.pathsep + str(REPO), VERIF_TRACE_OUT=out, PYTHONDONTWRITEBYTECODE="1")
+        subprocess.run([sys.executable, "-m", "pytest", "-q", "-x", "-p", "no:cacheprovider", "-p", "harness.pytest_trace"],
+                       cwd=REPO, env=env, capture_output=True, text=True, timeout=600)
+        recs = []
+        for r in read_ndjson(out):
+            if r.pop("m", None) == module:
+                r["gen"] = {"kind": "observed", "source": "repository test suite under harness/pytest_trace.py"}
+                recs.append(r)
+        return recs
+    finally:
+        shutil.rmtree(tmp, ignore_errors=True)
 
 
 def _shorten(o, depth=0):
@@ -576,6 +602,13 @@ def run_prop(prop: Prop, tier: str, seed: int) -> int:
         by_mod: dict[str, list] = {}
         for r in recs:
             by_mod.setdefault(r.pop("_module", prop.trace_module), []).append(r)
+        nobs = 0
+        for mod in prop.observed_from_suite:
+            obs = records_from_repo_tests(mod)
+            nobs += len(obs)
+            by_mod.setdefault(mod, []).extend(obs)
+        if prop.observed_from_suite:
+            ctx.notes.append(f"{nobs} observations recorded while the repository's own test suite ran")
         for mod, rs in by_mod.items():
             validate_records(ctx, rs, module=mod)
         prop.extra_checks(ctx)
